@@ -71,6 +71,19 @@ def level_cases(rng, m, n, levels):
             t = json.dumps(s)
             out.append(case({"kind": "json", "text": t}, t, [(m, n)],
                             [{"text": '"' + "".join(rng.choice(CHARS) for _ in range(k)) + '"', "ks": [k]} for k in ks]))
+        elif lv == "length_enum" and n >= 0:
+            # length bounds on enum / const strings: counted in code points, also for literals (1-4 byte characters);
+            # members outside the bounds drop out; with no member left the schema may be refused at construction
+            pool = ["", "a", "é", "€", "😀", "ab", "é€", "a😀", "abc", "€é€", "😀😀😀", "abcd", "éééé", "€€€€€", "abcdef", "é" * 7, "😀" * 9]
+            mem = rng.sample(pool, rng.randint(2, 6))
+            if rng.random() < 0.3:
+                mem = mem[:1]
+            s = ({"const": mem[0]} if len(mem) == 1 else {"enum": mem})
+            s.update({"minLength": m, "maxLength": n})
+            t = json.dumps(s, ensure_ascii=False)
+            some = any(m <= len(x) <= n for x in mem)
+            out.append(case({"kind": "json", "text": t}, t, [(m, n)],
+                            [{"text": json.dumps(x, ensure_ascii=False), "ks": [len(x)]} for x in mem], mayfail=0 if some else 1))
         elif lv == "properties" and n >= 0:
             s = {"type": "object", "additionalProperties": {"const": 1}, "minProperties": m, "maxProperties": n}
             t = json.dumps(s)
@@ -146,7 +159,7 @@ def op_cases(rng):
     return out
 
 
-ALL_LEVELS = ["rule", "rule_group", "rule_nested", "terminal", "regex", "regex_top", "items", "items_min", "length", "properties",
+ALL_LEVELS = ["rule", "rule_group", "rule_nested", "terminal", "regex", "regex_top", "items", "items_min", "length", "length_enum", "properties",
               "properties_req", "properties_pat", "items_prefix"]
 
 
